@@ -218,3 +218,26 @@ Proof. intros m Hm. each_month Hm; (eexists; split; by_computation). Qed.
 Lemma wrapper_keys_known_l : forall s, In s (tbl "three_month_weighted") ->
   exists a n, month_key (seg_name s) = Some a /\ assoc a wrapper_month_dict = Some n.
 Proof. intros s Hs. each_seg Hs; (do 2 eexists; split; by_computation). Qed.
+
+(* ---- drop_zero_weight_segments over the tables ------------------------------------------------------------------ *)
+(* the dropped columns are all-zero on the index *)
+Lemma dropped_all_zero_l : forall type t, In (type, t) segment_tables -> forall present s m, In s t ->
+  kept_segment present s = false -> In m present -> In m months -> (seg_weight s m == 0)%Q.
+Proof.
+  intros type t Ht present s m Hs Hk Hp Hm.
+  pose proof (dropped_nowhere_positive present s m Hk Hp) as Hle.
+  destruct (weights_in_0_half_1 type t Ht s Hs m Hm) as [H | [H | H]]; [ exact H | | ]; rewrite H in Hle; exfalso; revert Hle; compute; intros F; apply F; reflexivity.
+Qed.
+
+(* three_month_weighted: whatever part of the year the index covers, with or without the filter an hour keeps exactly
+   three weights above zero -- 1 in its own segment and 1/2 in its two neighbours' (C18_weights_partition) *)
+Lemma weighted_positive_row_l : forall present m, In m months -> In m present ->
+  positive_row (dropped_table present (tbl "three_month_weighted")) m = positive_row (tbl "three_month_weighted") m /\
+  exists a b c, positive_row (tbl "three_month_weighted") m = [a; b; c] /\
+    (Qeq_bool (snd a) 1 && Qeq_bool (snd b) (1 # 2) && Qeq_bool (snd c) (1 # 2)
+     || Qeq_bool (snd a) (1 # 2) && Qeq_bool (snd b) 1 && Qeq_bool (snd c) (1 # 2)
+     || Qeq_bool (snd a) (1 # 2) && Qeq_bool (snd b) (1 # 2) && Qeq_bool (snd c) 1) = true.
+Proof.
+  intros present m Hm Hp. split; [ apply drop_preserves_positive_row; exact Hp | ].
+  each_month Hm; (do 3 eexists; split; by_computation).
+Qed.
